@@ -733,8 +733,8 @@ where
                     self.buffer.push_back(item);
                     if self.end == 0 && self.begin < 0 {
                         // we only need to keep part of the buffer in this case
-                        if self.buffer.len() > self.begin.abs() as usize {
-                            let excess = self.buffer.len() - self.begin.abs() as usize;
+                        if self.buffer.len() > self.begin.unsigned_abs() {
+                            let excess = self.buffer.len() - self.begin.unsigned_abs();
                             for _ in 0..excess {
                                 self.buffer.pop_front();
                             }
@@ -762,7 +762,7 @@ where
                     }
                     if self.end < 0 {
                         //discard some items at the end which we do not want
-                        for _ in 0..self.end.abs() {
+                        for _ in 0..self.end.unsigned_abs() {
                             self.buffer.pop_back();
                         }
                     }
